@@ -122,7 +122,7 @@ def fresh_replay(path: str, prop: str) -> tuple[int, str]:
         capture_output=True,
         text=True,
         env=env,
-        timeout=120,
+        timeout=900,
     )
     m = re.search(r"DIGEST (\w+)", p.stdout)
     return p.returncode, (m.group(1) if m else "")
